@@ -7,6 +7,8 @@ import (
 	"os"
 	"path/filepath"
 	"runtime"
+	"runtime/debug"
+	"runtime/pprof"
 	"sort"
 	"strconv"
 	"strings"
@@ -47,6 +49,8 @@ type EntryResult struct {
 }
 
 func main() {
+	// the loaded SSA program is a large, stable heap: collect rarely
+	debug.SetGCPercent(800)
 	if len(os.Args) < 2 {
 		usage()
 	}
@@ -87,6 +91,7 @@ func cmdRun(args []string) int {
 	verbose := fs.Bool("v", false, "verbose")
 	noEvidence := fs.Bool("no-evidence", false, "do not write the evidence file")
 	maxPaths := fs.Int("max-paths", 0, "path cap (0 = tier default)")
+	cpuprof := fs.String("cpuprofile", "", "write a CPU profile")
 	if len(args) < 1 {
 		usage()
 	}
@@ -94,6 +99,11 @@ func cmdRun(args []string) int {
 	fs.Parse(args[1:])
 	if *tier != "quick" && *tier != "thorough" {
 		*tier = "quick"
+	}
+	if *cpuprof != "" {
+		f, _ := os.Create(*cpuprof)
+		pprof.StartCPUProfile(f)
+		defer pprof.StopCPUProfile()
 	}
 	seed, _ := strconv.Atoi(os.Getenv("VERIF_SEED"))
 	start := time.Now()
